@@ -79,6 +79,7 @@ pub fn cli_main() {
         }
         i += 2;
     }
+    mon::set_profile(&ctx.profile);
     mon::install_panic_hook();
     mon::start_watchdog();
     let caselog = out.as_ref().map(|o| format!("{o}.caselog"));
